@@ -86,9 +86,9 @@ CHECKS["C16"] = {
     "title": "error replies are coherent",
     "go": GO,
     "units": [
-        {"name": "endpoint", "pkg": "internal/endpoint/smtp",
-         "overlay": {"verif_c16_test.go": "harness/C16/endpoint_test.go"},
-         "overlay_abs": {"internal/verifx/errtree.go": "harness/shared/verifx/errtree.go"}},
+        {"name": "endpoint", "pkg": "internal/endpoint/smtp", "run": "^TestVerifC16",
+         "overlay": {"verif_c16_test.go": "harness/C16/endpoint_test.go", "verif_c16auth_test.go": "harness/C16/auth_test.go"},
+         "overlay_abs": VERIFX},
         {"name": "queue", "pkg": "internal/target/queue", "run": "^TestVerifC16", "go": GO126,
          "overlay": dict(QUEUE_COMMON, **{"verif_c01_test.go": "harness/C01/queue_test.go", "verif_c18_test.go": "harness/C18/dsn_test.go",
                                           "verif_c16_test.go": "harness/C16/queue_test.go"}), "overlay_abs": VERIFX,
@@ -410,4 +410,4 @@ CHECKS["C05"] = {
 # properties deliberately not claimed: {"property_id":..., "reason":...}
 NOT_APPLICABLE = []
 
-FIX_COMMITS = ["b0fbfbf", "ce16772", "79536cb", "9da7ceb", "ba9a898", "cd17c24", "0f579ef", "cfad1cd", "1450983", "0eb6137", "4ba5ca6", "2f36527", "b732485", "0e0d97d", "b946db5", "3bc2b0d", "7489d42", "0cccb75", "c472f5d", "674085b", "73fcd7e", "697926b", "0e63ec2", "16c771f", "5bb0b0a", "7be8843", "debd9c3", "9790624", "e55761e", "d0b7056", "7233be6", "02f7bc3", "f261dd3", "1915aea", "aadc9de", "69322a4", "7171149", "0639e41", "bc577d7", "b73ea9f", "8aab2c0", "3c0a58c", "82642f8", "200f867", "b62153d", "bf92dcc", "cf39465", "e7f20b9", "3e83a3e", "bf86c27", "3f2da7a", "bcff0c6", "120fc92", "93b06c2", "b2cc18e"]
+FIX_COMMITS = ["b0fbfbf", "ce16772", "79536cb", "9da7ceb", "ba9a898", "cd17c24", "0f579ef", "cfad1cd", "1450983", "0eb6137", "4ba5ca6", "2f36527", "b732485", "0e0d97d", "b946db5", "3bc2b0d", "7489d42", "0cccb75", "c472f5d", "674085b", "73fcd7e", "697926b", "0e63ec2", "16c771f", "5bb0b0a", "7be8843", "debd9c3", "9790624", "e55761e", "d0b7056", "7233be6", "02f7bc3", "f261dd3", "1915aea", "aadc9de", "69322a4", "7171149", "0639e41", "bc577d7", "b73ea9f", "8aab2c0", "3c0a58c", "82642f8", "200f867", "b62153d", "bf92dcc", "cf39465", "e7f20b9", "3e83a3e", "bf86c27", "3f2da7a", "bcff0c6", "120fc92", "93b06c2", "b2cc18e", "1ded907"]
